@@ -19,6 +19,9 @@ for d in sorted(glob.glob(V + "/seeded/C*")):
         det = {"exit": None, "raw": r.stdout[-500:]}
     out[name] = {"exit": det.get("exit"), "first": (det.get("first_violation") or "")[:160], "secs": round(time.time() - t0, 1)}
     print(name, det.get("exit"), (det.get("first_violation") or str(det.get("lines")))[:150], flush=True)
+    # results are recorded as they come in (a run over all kept changes takes hours and may be cut short)
+    json.dump({"seed": int(os.environ.get("VERIF_SEED", "1")), "tier": tier, "complete": False, "selection": pref or "all", "results": out, "caught": sum(1 for v in out.values() if v["exit"] == 1), "total": len(out)},
+              open(V + "/seeded/REGRESSION%s%s.json" % ("-partial" if pref else "", "" if os.environ.get("VERIF_SEED", "1") == "1" else "-seed" + os.environ["VERIF_SEED"]), "w"), indent=1)
 if not pref:
-    json.dump({"seed": int(os.environ.get("VERIF_SEED", "1")), "tier": tier, "results": out, "caught": sum(1 for v in out.values() if v["exit"] == 1), "total": len(out)}, open(V + "/seeded/REGRESSION%s.json" % ("" if os.environ.get("VERIF_SEED", "1") == "1" else "-seed" + os.environ["VERIF_SEED"]), "w"), indent=1)
+    json.dump({"seed": int(os.environ.get("VERIF_SEED", "1")), "tier": tier, "complete": True, "results": out, "caught": sum(1 for v in out.values() if v["exit"] == 1), "total": len(out)}, open(V + "/seeded/REGRESSION%s.json" % ("" if os.environ.get("VERIF_SEED", "1") == "1" else "-seed" + os.environ["VERIF_SEED"]), "w"), indent=1)
 print("caught %d of %d" % (sum(1 for v in out.values() if v["exit"] == 1), len(out)))
